@@ -131,7 +131,20 @@ def rule_K(ck, lib, pfx):
     if not ck.judge(ok, pfx + "-K2", "process:scan-range", "scan covers cmd_buf[read_offset..read_end]", "scan covers %s, expected cmd_buf[read..read_end]" % (show_term(sl) if sl else show_term(scan))):
         return
     le = lin(read_end)
-    cnt = [a for a in le.coeffs if a[0] == "payload" and a[2] == OK and a[1][0] == "call" and a[1][1] == ADAPTER + "read"]
+
+    def is_count(a):
+        if a[0] == "payload" and a[2] == OK and a[1][0] == "call" and a[1][1] == ADAPTER + "read":
+            return True
+        # the count clamped to the space that was offered: min(count, N - read) (an adapter reporting more than it was
+        # given room for costs the excess, not a panic; for a conforming adapter it is the count)
+        if a[0] == "call" and a[1].split("::")[-1] == "min" and len(a[2]) == 2 and any(is_count(S(u)) for u in a[2]):
+            other = [u for u in a[2] if not is_count(S(u))]
+            try:
+                return len(other) == 1 and any(k[0] in ("constparam",) or (k[0] == "call" and k[1].endswith("::len")) for k in lin(other[0]).coeffs) and lin(other[0]).coeffs.get(S(R_out)) == -1
+            except Exception:
+                return False
+        return False
+    cnt = [a for a in le.coeffs if is_count(a)]
     rout = [a for a in le.coeffs if a == S(R_out)]
     ok = len(cnt) == 1 and len(rout) == 1 and le.const == 0 and len(le.coeffs) == 2 and all(v == 1 for v in le.coeffs.values())
     ck.judge(ok, pfx + "-K1", "process:read_end", "read_end = read + count: %r" % le, "scan end is %r, expected read_offset + count" % le)
